@@ -101,7 +101,8 @@ fn main() {
             });
             let k = n.load(Ordering::Relaxed);
             total += k;
-            report.push(serde_json::json!({"loader": ["load_mem", "load_mmap", "mmap"][loader], "shape": shape, "schedules": k}));
+            let lname = ["load_mem", "load_mmap", "mmap"][loader];
+            report.push(serde_json::json!({"loader": lname, "shape": shape, "schedules": k}));
         }
     }
     let _ = std::fs::remove_dir_all(&dir);
